@@ -12,6 +12,7 @@ func lockedConfigs(tier string) []StackCfg {
 		{Orca: "l1l2", Locked: "mr", Bits: 2, L1: "std"},
 		{Orca: "l1l2", Locked: "sr", Bits: 3, L1: "chunked"},
 		{Orca: "l1only", Locked: "sr", Bits: 1, L1: "chunked"},
+		{Orca: "l1only", Locked: "sr", Bits: 1, L1: "std"}, // the stack that serves get-with-expiry
 	}
 	if tier == "thorough" {
 		cfgs = append(cfgs, StackCfg{Orca: "l1only", Locked: "mr", Bits: 8, L1: "std"}, StackCfg{Orca: "l1l2", Locked: "sr", Bits: 0, L1: "std"})
@@ -67,7 +68,11 @@ func faultCommands(proto string, k, k2 []byte) []Command {
 		{Kind: "get", Keys: []GetKey{{Key: k, Opaque: 49, Quiet: proto == "bin"}, {Key: k2, Opaque: 50, Quiet: proto == "bin"}, {Key: k, Opaque: 51}}},
 	}
 	if proto == "bin" {
-		cmds = append(cmds, Command{Kind: "gat", Key: k, Exptime: 700, Opaque: 52})
+		cmds = append(cmds, Command{Kind: "gat", Key: k, Exptime: 700, Opaque: 52},
+			// get-with-expiry (L1-only stacks serve it, the two-tier orchestrators refuse it): several keys,
+			// and the same key twice (the wrapper must not hold the first key's lock while it takes the second)
+			Command{Kind: "gete", Keys: []GetKey{{Key: k, Opaque: 53, Quiet: true}, {Key: k2, Opaque: 54, Quiet: true}, {Key: k, Opaque: 55}}},
+			Command{Kind: "gete", Keys: []GetKey{{Key: k, Opaque: 56, Quiet: true}, {Key: k, Opaque: 57}}})
 	}
 	return cmds
 }
@@ -129,7 +134,7 @@ func answeredOrError(proto string, cmd Command, body []byte) string {
 		return "undecodable reply: " + err.Error()
 	}
 	if len(fs) == 0 {
-		if cmd.Kind == "get" && cmd.Keys[len(cmd.Keys)-1].Quiet && !cmd.NoopEnd {
+		if (cmd.Kind == "get" || cmd.Kind == "gete") && cmd.Keys[len(cmd.Keys)-1].Quiet && !cmd.NoopEnd {
 			return ""
 		}
 		return "nothing was sent in reply"
@@ -140,7 +145,7 @@ func answeredOrError(proto string, cmd Command, body []byte) string {
 		}
 	}
 	want := cmd.Opaque
-	if cmd.Kind == "get" {
+	if cmd.Kind == "get" || cmd.Kind == "gete" {
 		lk := cmd.Keys[len(cmd.Keys)-1]
 		want = lk.Opaque
 		if cmd.NoopEnd {
@@ -187,6 +192,8 @@ func init() {
 							// connection cuts under a get (the back-fill write panics on an I/O error,
 							// inside the per-key recover of the wrapper) are always run
 							always := cmd.Kind == "get" && f.Kind != "status" && f.Tier == "L1" && f.Index <= 2 && proto == "bin"
+							// multi-key get-with-expiry (its own method of the wrapper): a fault on a later key or none at all
+							always = always || (cmd.Kind == "gete" && f.Kind == "cut-after" && f.Tier == "L1" && f.Index >= 1)
 							if r.Float64() > sample && !always && os.Getenv("VERIF_ONLY") == "" {
 								continue
 							}
